@@ -255,6 +255,12 @@ def contains(engine, st, c, x):
             yield from contains(engine, st1, u, x)
         elif inner == TStr:
             yield from contains(engine, st, sv_str(V.sval(c.t)), x)
+        elif inner == TAny:
+            for st1, iss in engine.fork(st, V.is_str_(c.t)):
+                if iss:
+                    yield from contains(engine, st1, sv_str(V.sval(c.t)), x)
+                else:
+                    yield st1, Raised("TypeError", where="`in` on a non-str dynamic value")
         else:
             raise OutsideSubset(f"`in` on {c.ty}")
     elif k == "view":
@@ -443,7 +449,15 @@ def load_attr(engine, st, o, attr, node):
                     cands.append(c)
             cands.sort(key=lambda c: c.name)
             if not cands:
-                raise OutsideSubset(f"attribute {attr} on a value of unknown type (line {getattr(node, 'lineno', '?')})")
+                # a method of an external object (e.g. environ["wsgi.input"].read): opaque -- returns anything or raises
+                engine.used_models.add(f"opaque-external-method:{attr}")
+
+                def opaque(engine, st, args, kwargs, node, attr=attr):
+                    yield st, Raised("<unknown>", where=f"external .{attr}()")
+                    yield st, sv_v(S.fresh("ext_" + attr, V), TAny)
+
+                yield st, SV("func", ("py", opaque))
+                return
             rest = st
             for c in cands:
                 nxt = None
@@ -455,7 +469,14 @@ def load_attr(engine, st, o, attr, node):
                 if nxt is None:
                     return
                 rest = nxt
-            yield rest, Raised("AttributeError", where=f"<dynamic>.{attr}")
+            # none of the repository's classes: an external object (opaque member) -- returns anything or raises
+            engine.used_models.add(f"opaque-external-member:{attr}")
+
+            def opaque2(engine, st, args, kwargs, node, attr=attr):
+                yield st, Raised("<unknown>", where=f"external .{attr}()")
+                yield st, sv_v(S.fresh("ext_" + attr, V), TAny)
+
+            yield rest, SV("func", ("py", opaque2))
             return
         raise OutsideSubset(f"attribute {attr} on {ty}")
     if k == "tuple":
@@ -486,6 +507,21 @@ def load_attr(engine, st, o, attr, node):
     if (k, attr) in engine.method_models:
         yield st, SV("func", ("method", o, attr, getattr(node, "value", None)))
         return
+    if k == "namespace":
+        yield from engine.ns_getattr(engine, st, o, attr, None)
+        return
+    if k == "httpstatus":
+        if attr == "value":
+            yield st, sv_int(o.t[0])
+            return
+        if attr == "phrase":
+            yield st, sv_str(o.t[1])
+            return
+    if k == "pathobj":
+        v = engine.path_attr(engine, st, o, attr)
+        if v is not None:
+            yield st, v
+            return
     if k == "graph":
         v = engine.graph_attr(engine, st, o, attr)
         if v is not None:
@@ -566,6 +602,12 @@ def load_obj_attr(engine, st, o, cname, attr, node):
         st = st.with_ghost("no_virtual", False)
     if fi is not None and fi.is_property:
         yield from engine.call_repo(fi, [o], {}, st, node)
+        return
+    hook = None
+    for c_ in engine.repo.mro(ci):
+        hook = hook or engine.field_hooks.get((c_.name, attr))
+    if hook is not None:
+        yield from hook(engine, st, o)
         return
     if attr in engine.repo.all_fields(ci) or engine.field_type(cname, attr) is not None:
         st1, sv = engine.read_field(st, o.t, cname, attr)
@@ -975,10 +1017,9 @@ def b_getattr(engine, st, args, kwargs, node):
     if not z3.is_string_value(nm):
         raise OutsideSubset("getattr with a symbolic name")
     attr = nm.as_string()
-    if o.kind == "v" and isinstance(strip_opt(o.ty), TObj) and strip_opt(o.ty).cls == "Namespace":
+    if o.kind == "namespace":
         # argparse.Namespace built from a dict: attribute == key
-        oc = engine.opaque_classes["Namespace"]
-        yield from oc["getattr"](engine, st, o, attr, args[2] if len(args) > 2 else None)
+        yield from engine.ns_getattr(engine, st, o, attr, args[2] if len(args) > 2 else None)
         return
     results = list(load_attr(engine, st, o, attr, node))
     for st1, r in results:
@@ -1641,7 +1682,15 @@ def m_str_upper(engine, st, recv, args, kwargs, recv_node):
 
 def m_str_strip(engine, st, recv, args, kwargs, recv_node):
     if args and args[0].kind != "none":
-        yield st, sv_str(py_strip(recv.t, engine.as_str(args[0])))
+        c = engine.as_str(args[0])
+        r = py_strip(recv.t, c)
+        dd = z3.StringVal("..")
+        # S1 (assumed, bounded-validated): the result is a substring; a one-character c is neither prefix nor suffix of it
+        facts = [z3.Implies(z3.Contains(r, dd), z3.Contains(recv.t, dd)), z3.Length(r) <= z3.Length(recv.t)]
+        cl = z3.simplify(c)
+        if z3.is_string_value(cl) and len(cl.as_string()) == 1:
+            facts += [Not(z3.PrefixOf(c, r)), Not(z3.SuffixOf(c, r))]
+        yield st.with_facts(facts), sv_str(r)
     else:
         yield st, sv_str(py_strip_ws(recv.t))
 
